@@ -68,7 +68,7 @@ type Project struct {
 
 // ---- constructors
 
-func Num(lit string) Val  { return Val{K: "num", Lit: lit} }
+func Num(lit string) Val { return Val{K: "num", Lit: lit} }
 func Bool(b bool) Val {
 	if b {
 		return Val{K: "bool", Lit: "true"}
@@ -96,8 +96,10 @@ func LitVal(lit string) Val {
 }
 
 func Scalar(kind, lit string, rules ...Rule) *Node { return &Node{Kind: kind, Lit: lit, Rules: rules} }
-func Ref(name string, rules ...Rule) *Node          { return &Node{Kind: "ref", Refs: []string{name}, Rules: rules} }
-func Choice(names ...string) *Node                  { return &Node{Kind: "choice", Refs: names} }
+func Ref(name string, rules ...Rule) *Node {
+	return &Node{Kind: "ref", Refs: []string{name}, Rules: rules}
+}
+func Choice(names ...string) *Node { return &Node{Kind: "choice", Refs: names} }
 
 func Obj(rules ...Rule) *Node { return &Node{Kind: "object", Rules: rules} }
 func Arr(rules ...Rule) *Node { return &Node{Kind: "array", Rules: rules} }
